@@ -706,3 +706,104 @@ def o1_4_confirm(v, out):
 
 def o1_4_witness_ok(w, out):
     return out.get('_rc') == 0 and [[int(x) for x in out.get('l%d' % l, '').split(',') if x] for l in range(3)] == w['executor_result']
+
+
+# ---------------------------------------------------------------- O7.7 VersionSet::pick_compaction
+def o7_7_pick_compaction(mir, tier):
+    """Which level-L files a size- or seek-triggered compaction starts from: for level 0 every level-0 file overlapping the picked
+    one (transitively) is included, whatever triggered the compaction; for deeper levels exactly the first file after the
+    compaction pointer (or the first file of the level)."""
+    fn = mir.method('VersionSet', 'pick_compaction')
+    res = Result('O7.7 VersionSet::pick_compaction initial inputs', [fn.path, 'get_key_range_for_files, get_overlapping_compaction_inputs (inlined)'],
+                 'level 0 with 2 files and level 1 with 2 files (free ranges); size trigger at level 0 or 1, or seek trigger on any of the four files; compaction pointer absent or free; finalize_compaction_inputs by contract (records the inputs)')
+    t0 = time.time()
+    w = World(mir)
+    lv = {0: [w.file('z%d' % i, number=10 + i) for i in range(2)], 1: [w.file('a%d' % i, number=20 + i) for i in range(2)]}
+    LF = {l: [w.F(f) for f in fs] for l, fs in lv.items()}
+    pre = list(w.pre) + [kle(f['sm'], f['lg']) for f in LF[0]] + sorted_disjoint(LF[1]) + [ULT(f['size'], bv(1 << 40)) for l in LF for f in LF[l]]
+    numf = mir.field('FileMetadata', 'file_number')
+    ptr = w.key('ptr'); PTR = w.K(ptr)
+    triggers = [('size', 0, None), ('size', 1, None), ('seek', 0, 0), ('seek', 0, 1), ('seek', 1, 0), ('seek', 1, 1)]
+    for trig, level, fidx in triggers:
+        for has_ptr in ((False, True) if trig == 'size' and level == 1 else (False,)):
+            S = base_summaries(mir); P = S['$patterns']
+            node = mir.mk_struct('Node', element=mk_version(mir, lv))
+            P[r'VersionSet::get_current_version'] = lambda se, env, pc, vs: lib.one(env, Ref('$node'))
+            P[r'VersionSet::release_version'] = lib.unit
+            P[r'Version::requires_size_compaction'] = lambda se, env, pc, v, trig=trig: lib.one(env, BoolVal(trig == 'size'))
+            P[r'Version::requires_seek_compaction'] = lambda se, env, pc, v, trig=trig: lib.one(env, BoolVal(trig == 'seek'))
+            P[r'Version::get_size_compaction_metadata'] = lambda se, env, pc, v, level=level: lib.one(env, Enum('Some', (Ref('$sizemeta'),)))
+            P[r'Version::get_seek_compaction_metadata'] = lambda se, env, pc, v: lib.one(env, Ref('$seekmeta'))
+            P[r'DbOptions::max_file_size'] = lambda se, env, pc, o: lib.one(env, BitVec('max_file_size', 64))
+            P[r'<VersionChangeManifest as Default>::default'] = lambda se, env, pc: lib.one(env, {'abstract': True, '__ty': 'VersionChangeManifest'})
+            P[r'<\[Vec<.*>; 2\] as Default>::default'] = lambda se, env, pc: lib.one(env, [[], []])
+            P[r'<\[usize; 7\] as Default>::default'] = lambda se, env, pc: lib.one(env, [bv(0)] * 7)
+            P[r'Vec::append'] = lambda se, env, pc, a, b: (se.store(env, a, lib.the_list(se, env, a) + lib.the_list(se, env, b)), se.store(env, b, []), lib.one(env, ()))[2]
+            cmf = mir.struct_fields('CompactionManifest')
+            def finalize(se, env, pc, cm):
+                st = dict(env['$state']); c = se.deref(env, cm)
+                st['inputs'] = [f[numf] for f in c[cmf.index('input_files')][0]]; st['level'] = c[cmf.index('level')]
+                return [(None, Opaque('next key'), st)]
+            P[r'CompactionManifest::finalize_compaction_inputs'] = finalize
+            ex = Exec(mir, S, loop_bound=12)
+            def k(ret, env, pc, trig=trig, level=level, fidx=fidx, has_ptr=has_ptr, ex=ex):
+                st = env['$state']
+                if not (isinstance(ret, Enum) and ret.tag == 'Some') or 'inputs' not in st:
+                    res.violations.append({'label': 'no compaction is picked although one is required', 'replay': None, 'confirmed_by': {'reproduced': False, 'detail': ''}}); return
+                got = [simplify(x).as_long() for x in st['inputs']]
+                posts = [('the picked compaction is for another level than the trigger names', st['level'] == bv(level))]
+                if level == 0:
+                    start = fidx if trig == 'seek' else None
+                    ins = [10 + i in got for i in range(2)]
+                    if start is not None: posts.append(('the file that triggered the compaction is not among its inputs', BoolVal(ins[start])))
+                    posts.append(('a level-0 compaction has no input', BoolVal(any(ins))))
+                    a, b = LF[0]
+                    overlap = And(ULE(a['sm'][0], b['lg'][0]), ULE(b['sm'][0], a['lg'][0]))
+                    posts.append(('a level-0 file overlapping the inputs of a level-0 compaction is left out (an older version of a key would stay above the compacted one)',
+                                  Or(Not(overlap), BoolVal(all(ins) or not any(ins)))))
+                else:
+                    posts.append(('a compaction of a level >= 1 does not start from exactly one file', BoolVal(len(got) == 1)))
+                    if trig == 'seek' and got: posts.append(('the file that triggered the compaction is not its input', BoolVal(got == [20 + fidx])))
+                    if trig == 'size' and got:
+                        f0, f1 = LF[1]
+                        if has_ptr: exp = If(klt(PTR, f0['lg']), bv(20), If(klt(PTR, f1['lg']), bv(21), bv(20)))
+                        else: exp = bv(20)
+                        posts.append(('a size compaction does not start at the first file after the compaction pointer', bv(got[0]) == exp))
+                res.cases['%s L%d file=%s ptr=%s -> %s' % (trig, level, fidx, has_ptr, got)] = 1
+                def argv(m):
+                    return ['pick_compaction', trig, str(level), str(fidx if fidx is not None else 0), ('%s:%d' % (key_bytes(mval(m, PTR[0])), mval(m, PTR[1]))) if has_ptr else 'none'] + _levels_argv(m, LF)
+                for label, post in posts:
+                    ex.record_formula(label, pc, Not(post))
+                    m = ex.model(Not(post))
+                    if m is not None: res.violations.append({'label': label, 'trigger': [trig, level, fidx], 'executor_result': got, 'replay': argv(m)})
+            ptrs = [Enum('None')] * 7
+            if has_ptr: ptrs = [Enum('None'), Enum('Some', (ptr,))] + [Enum('None')] * 5
+            vs = mir.mk_struct('VersionSet', options={'abstract': True, '__ty': 'DbOptions'}, compaction_pointers=ptrs)
+            env = {'$state': {}, '$vs': vs, '$node': node,
+                   '$sizemeta': mir.mk_struct('SizeCompactionMetadata', compaction_level=bv(level), compaction_score=Opaque('score')),
+                   '$seekmeta': mir.mk_struct('SeekCompactionMetadata', file_to_compact=Enum('Some', (lv[level][fidx if fidx is not None else 0],)), level_of_file_to_compact=bv(level))}
+            ex.top(fn, [Ref('$vs')], env, pre, k)
+            res.absorb(ex)
+            for pc, msg, where in ex.panics:
+                res.panic_paths += 1; res.violations.append({'label': 'panic path: ' + msg[:80], 'trigger': [trig, level, fidx], 'replay': None})
+    res.wall_s = time.time() - t0
+    if res.violations: res.status = 'violation'
+    return res
+
+
+def o7_7_confirm(v, out):
+    if out.get('_rc') != 0: return (False, 'native run failed: %s' % out.get('_stderr', '')[-300:])
+    a = v['replay']; trig, level, fidx = a[1], int(a[2]), int(a[3]); lv = _parse_levels(a[5:])
+    got = sorted(int(x) for x in out.get('inputs0', '').split(',') if x)
+    if level == 0:
+        files = lv.get(0, [])
+        start = files[fidx]['num'] if trig == 'seek' else (got[0] if got else None)
+        sel = {start} if start is not None else set()
+        changed = True
+        while changed:
+            changed = False
+            for f in files:
+                if f['num'] in sel: continue
+                if any(not (f['lg'][0] < g['sm'][0] or g['lg'][0] < f['sm'][0]) for g in files if g['num'] in sel): sel.add(f['num']); changed = True
+        return (not sel <= set(got), 'native level-0 inputs %s, overlap closure of the starting file %s' % (got, sorted(sel)))
+    return (len(got) < 1, 'native inputs %s' % got)
